@@ -158,6 +158,8 @@ func Mutate(t *rapid.T, f *File) (*File, string) {
 			} else {
 				e.Str = "s1"
 			}
+		} else if rapid.Bool().Draw(t, "attrLitWS") {
+			e.Str += " " // whitespace inside a literal is data
 		} else {
 			e.Str += "E"
 		}
@@ -184,7 +186,25 @@ func Mutate(t *rapid.T, f *File) (*File, string) {
 				e.Str = "b1"
 			}
 		case "strlit":
-			e.Str = e.Str + "E"
+			switch rapid.IntRange(0, 3).Draw(t, "litEdit") {
+			case 0:
+				e.Str = e.Str + "E"
+			case 1:
+				// only whitespace inside the literal changes (data, not layout)
+				if strings.Contains(e.Str, " ") {
+					e.Str = strings.Replace(e.Str, " ", "  ", 1)
+				} else {
+					e.Str = e.Str + " "
+				}
+			case 2:
+				if strings.Contains(e.Str, " ") {
+					e.Str = strings.Replace(e.Str, " ", "\t", 1)
+				} else {
+					e.Str = " " + e.Str
+				}
+			default:
+				e.Str = strings.ToUpper(e.Str) + "."
+			}
 		case "intlit":
 			e.Num++
 		}
